@@ -150,6 +150,11 @@ def make_real(kind, rng, opt_name, n_valid=4):
         s = Solver1D(E.ode, [IVP(0., 1.)], t_min=0., t_max=1., nets=nets, optimizer=mk_opt(nets), n_batches_valid=n_valid,
                      train_generator=Generator1D(8, 0., 1.), valid_generator=Generator1D(8, 0., 1., method='equally-spaced'))
         coords = [torch.linspace(0, 1, 5)]
+    elif kind == 'Solver1D-zero-loss':
+        nets = [FCNN(1, 1, hidden_units=(4,))]
+        s = Solver1D(E.zero_ode, [IVP(0., 1.)], t_min=0., t_max=1., nets=nets, optimizer=mk_opt(nets), n_batches_valid=n_valid,
+                     train_generator=Generator1D(8, 0., 1.), valid_generator=Generator1D(8, 0., 1., method='equally-spaced'))
+        coords = [torch.linspace(0, 1, 5)]
     elif kind == 'Solver1D-ensemble':
         from neurodiffeq.conditions import EnsembleCondition
         nets = [FCNN(1, 2, hidden_units=(4,))]
@@ -184,15 +189,16 @@ def stream_real(rng, n, shim):
     bad, runs = [], 0
     stats = dict(save_ok=0, save_failed=0, loads=0)
     for i in range(n):
-        kind = rng.choice(['Solver1D', 'Solver1D-2eq', 'Solver2D', 'Bundle', 'Bundle-param', 'Solver1D-ensemble']) if i >= 2 else ['Solver1D-ensemble', 'Solver1D'][i]
-        opt = rng.choice(['SGD', 'Adam', 'ClipSGD']) if i >= 2 else ['SGD', 'ClipSGD'][i]
+        kind = rng.choice(['Solver1D', 'Solver1D-2eq', 'Solver2D', 'Bundle', 'Bundle-param', 'Solver1D-ensemble', 'Solver1D-zero-loss']) if i >= 3 \
+            else ['Solver1D-ensemble', 'Solver1D', 'Solver1D-zero-loss'][i]
+        opt = rng.choice(['SGD', 'Adam', 'ClipSGD']) if i >= 3 else ['SGD', 'ClipSGD', 'SGD'][i]
         ctx = dict(kind=kind, optimizer=opt, shim=shim)
         with warnings.catch_warnings():
             warnings.simplefilter('ignore')
             nv = rng.choice([4, 4, 1, 0])
             ctx['n_batches_valid'] = nv
             s, coords = make_real(kind, rng, opt, n_valid=nv)
-            s.fit(rng.randint(0, 4), tqdm_file=None)
+            s.fit(rng.randint(0, 4) if kind != 'Solver1D-zero-loss' else rng.randint(1, 3), tqdm_file=None)
             if rng.random() < 0.5:      # a learning-rate schedule / manual decay after construction: part of the optimiser that is saved
                 for grp in s.optimizer.param_groups:
                     grp['lr'] = grp['lr'] * 0.37
@@ -261,6 +267,13 @@ def stream_real(rng, n, shim):
                     dill.settings['byref'] = False
                     if os.path.exists(path):
                         os.remove(path)
+                # "can continue training": the optimiser that came back trains the networks that came back (and nothing else)
+                opt_ids = {id(p_) for g_ in loaded.optimizer.param_groups for p_ in g_['params']}
+                net_ids = {id(p_) for n_ in loaded.nets for p_ in n_.parameters()}
+                if opt_ids != net_ids:
+                    bad.append(dict(ctx, violated='the optimiser of the loaded solver does not hold exactly the parameters of the loaded networks '
+                                    '(training it would move other tensors)', parameters_of_networks=len(net_ids), held_by_optimiser=len(opt_ids & net_ids),
+                                    foreign_tensors=len(opt_ids - net_ids)))
                 if type(loaded) is not type(cur):
                     bad.append(dict(ctx, violated='loaded solver is of a different kind', got=type(loaded).__name__))
                 skw = dict(no_reshape=True) if 'ensemble' in kind else {}      # a 2-column unknown cannot take the shape of the coordinate
@@ -268,7 +281,12 @@ def stream_real(rng, n, shim):
                     if best and cur.best_nets is None:
                         continue
                     a = cur.get_solution(best=best)(*coords, **skw)
-                    b = loaded.get_solution(best=best)(*coords, **skw)
+                    try:
+                        b = loaded.get_solution(best=best)(*coords, **skw)
+                    except Exception as e:
+                        bad.append(dict(ctx, violated=f'loaded {"best" if best else "latest"} solution cannot be evaluated (it is not the saved one)',
+                                        error=f'{type(e).__name__}: {e}'))
+                        continue
                     a, b = (a if isinstance(a, list) else [a]), (b if isinstance(b, list) else [b])
                     if not all(torch.equal(x, y) for x, y in zip(a, b)):
                         bad.append(dict(ctx, violated=f'loaded {"best" if best else "latest"} solution evaluates differently'))
@@ -301,6 +319,43 @@ def stream_real(rng, n, shim):
                         bad.append(dict(ctx, violated='best_nets replaced after load although no lower loss occurred'))
                 cur = loaded
     return bad, runs, stats
+
+
+def overwrite_checks(rng):
+    """"loading what was saved": a path that is written again holds the LATER solver - also when the two files have the same length,
+    the same modification second, and the first one was loaded before"""
+    import dill
+    import torch
+    bad, n = [], 0
+    path = tempfile.mktemp(prefix='verif-c18-same-path-')
+    dill.settings['byref'] = True
+    try:
+        with warnings.catch_warnings():
+            warnings.simplefilter('ignore')
+            for kind in ('Solver1D', 'Solver2D'):
+                sizes, loaded_prev = [], None
+                for gen in range(3):
+                    s, coords = make_real(kind, rng, 'SGD', n_valid=1)
+                    s.fit(1, tqdm_file=None)
+                    s.save(path=path)
+                    sizes.append(os.path.getsize(path))
+                    with contextlib.redirect_stdout(io.StringIO()):
+                        l = type(s).load(path=path)
+                    n += 1
+                    a, b = s.get_solution(best=False)(*coords), l.get_solution(best=False)(*coords)
+                    if not torch.equal(a, b) or list(l.metrics_history['train_loss']) != list(s.metrics_history['train_loss']):
+                        bad.append(dict(kind=kind, violated='a path written a second time loads as something other than what was saved last',
+                                        generation=gen, file_sizes=sizes,
+                                        loaded_equals_earlier_save=bool(loaded_prev is not None and torch.equal(b, loaded_prev))))
+                        break
+                    loaded_prev = b
+    except Exception as e:
+        bad.append(dict(violated='save / load on a re-used path failed', error=f'{type(e).__name__}: {e}'))
+    finally:
+        dill.settings['byref'] = False
+        if os.path.exists(path):
+            os.remove(path)
+    return bad, n
 
 
 def checkpoint_stream(rng, n):
@@ -385,13 +440,15 @@ def check(tier, seed):
     bad += [dict(stream='as-installed', **b) for b in b_bad] + [dict(stream='byref-shim', **c) for c in c_bad]
     k_bad, k_stats = checkpoint_stream(rng, 4 if tier == 'quick' else 30)
     bad += [dict(stream='checkpoint-callback', **b) for b in k_bad]
+    o_bad, o_runs = overwrite_checks(rng)
+    bad += [dict(stream='same-path', **b) for b in o_bad]
     n_ops = sum(len(l) for l, _ in scripts)
     rep.coverage.update(programs=len(scripts) + b_runs + c_runs, traces_validated_against_impl=len(scripts) - len(mism),
                         evaluations=n_ops + b_runs + c_runs, distinct_nontrivial=len({tuple(l) for l, _ in scripts if any(x == 'saveload' for x in l)}) + b_runs + c_runs,
                         rule='stream A: scripted solvers (Solver1D/Solver2D) through random fit / save / save+load sequences, every dump and event log '
                              'compared exactly with the Lean model; non-trivial = contains a load. Streams B/C: real networks, conditions with numbers '
                              'and with functions/lambdas, SGD/Adam, Solver1D/Solver2D/BundleSolver1D, dill as installed (save raises) and with byref=True',
-                        input_distribution=dict(as_installed=b_stats, byref_shim=c_stats, checkpoint_callback=k_stats, driver_seconds=round(dt, 1),
+                        input_distribution=dict(as_installed=b_stats, byref_shim=c_stats, checkpoint_callback=k_stats, same_path_overwrites=o_runs, driver_seconds=round(dt, 1),
                                                 scripted_loads=sum(x == 'saveload' for l, _ in scripts for x in l)))
     rep.samples = [dict(script=scripts[0][0], solver=scripts[0][1])]
     rep.assumptions = ['dill byte fidelity, the file system and the hub upload path are outside the model (runtime)',
